@@ -513,6 +513,11 @@ def check(spec) -> Outcome:
         elif spec.get("craft") == "region-to-itself":
             mutated = apply_ops(data, [["set", 196608 + 32, 8, 196608, "little"], ["set", 196608 + 64, 8, 196608, "little"]])
             out.cls("crafted")
+        elif spec.get("raw_b64") is not None:
+            import base64
+
+            mutated = base64.b64decode(spec["raw_b64"])  # an input found by the coverage-guided campaign
+            out.cls("fuzz-artifact")
         else:
             mutated = apply_ops(data, spec["ops"])
             for op in spec["ops"]:
@@ -561,3 +566,65 @@ def check(spec) -> Outcome:
     out.nontrivial = changed and stage != "open"
     out.cls("past-header" if stage != "open" else "refused-at-open", "raised" if err else "returned")
     return out
+
+
+# ------------------------------------------------------------------------------------------- coverage-guided campaign
+FUZZ_SEEDS = [n for n in SEED_NAMES if n not in ("hdd-descriptor",)]
+
+
+def extra_campaign(tier, seed, workdir, max_par):
+    """atheris / libFuzzer campaign, one process per seed artefact (in-process target = drive()).  Returns
+    (failures {sig: entry}, stats dict).  Skipped (with a note) when atheris is not installed."""
+    import base64
+    import glob
+    import subprocess
+    import sys as _sys
+
+    here = os.path.dirname(os.path.dirname(os.path.abspath(__file__)))
+    deps = os.path.join(os.path.dirname(here), ".deps")
+    probe = subprocess.run([_sys.executable, "-c", "import sys; sys.path.insert(0, %r); import atheris" % deps], capture_output=True)
+    if probe.returncode != 0:
+        return {}, {"fuzz": "skipped: atheris not importable (run MANIFEST.setup_cmd)"}
+    runs, tmax = (1500, 10) if tier == "quick" else (400000, 300)
+    procs = []
+    pending = list(FUZZ_SEEDS)
+    results = {}
+    stats = {"fuzz_executions": 0, "fuzz_new_units": 0, "fuzz_targets": len(FUZZ_SEEDS), "fuzz_runs_per_target": runs}
+
+    def start(name):
+        d = os.path.join(workdir, "fuzz-" + name)
+        os.makedirs(d, exist_ok=True)
+        log = open(os.path.join(d, "log"), "w")
+        env = dict(os.environ, PYTHONHASHSEED="0", PYTHONDONTWRITEBYTECODE="1")
+        p = subprocess.Popen([_sys.executable, os.path.join(here, "fuzz_c11.py"), name, os.path.join(d, "corpus"), os.path.join(d, "art"), str(runs), str(seed), str(tmax)],
+                             stdout=log, stderr=subprocess.STDOUT, env=env, cwd=os.path.dirname(here))
+        return (name, p, d, log)
+
+    while pending or procs:
+        while pending and len(procs) < max_par:
+            procs.append(start(pending.pop(0)))
+        still = []
+        for name, p, d, log in procs:
+            if p.poll() is None:
+                still.append((name, p, d, log))
+                continue
+            log.close()
+            text = open(os.path.join(d, "log"), errors="replace").read()
+            for line in text.splitlines():
+                if line.startswith("stat::number_of_executed_units:"):
+                    stats["fuzz_executions"] += int(line.split()[-1])
+                if line.startswith("stat::new_units_added:"):
+                    stats["fuzz_new_units"] += int(line.split()[-1])
+            arts = sorted(glob.glob(os.path.join(d, "art", "*")))
+            if p.returncode != 0 and arts:
+                a = arts[0]
+                kindname = os.path.basename(a).split("-")[0]
+                raw = open(a, "rb").read()
+                results[f"fuzz|{name}|{kindname}"] = {"count": len(arts), "size": len(raw), "message": f"libFuzzer reported {kindname} on a {len(raw)}-byte input; " + text[-300:].replace("\n", " "),
+                                                       "spec": {"seed": name, "ops": [], "raw_b64": base64.b64encode(raw).decode()}}
+            elif p.returncode not in (0,) and not arts:
+                results[f"fuzz-harness|{name}"] = {"count": 1, "size": 0, "message": "fuzz process failed without artifact: " + text[-400:], "spec": None, "harness": True}
+        procs = still
+        if procs:
+            time.sleep(0.2)
+    return results, stats
